@@ -38,7 +38,7 @@ LEVEL = {
  "C07": ("Theorems C07_alloc, C07_bitstring_ok_iff, C07_big_total over all digit counts d ≥ 1 and all exponents e : Int: the allocated width is sufficient, at most 32 bits above the "
          "smallest sufficient width need d e, exactly minimal up to 160 bits; Bitstring fails iff need > 160 bits; both width tables and the log2/ceil formulas proved (Widths.lean).", ""),
  "C08": ("Theorems C08_partition, C08_nan_kinds, C08_ieee: for every buffer of every width 32n the six classifiers are a partition, NaN kinds are exclusive, and all equal what "
-         "Spec.decode assigns to the combination field (decide +kernel over the 256 last-byte values, lifted by div/mod arithmetic).", ""),
+         "Spec.decode assigns to the combination field (decide +kernel over the 256 last-byte values, lifted by div/mod arithmetic). The seven masks the classifiers use are translated out of src/binary/combination.rs on every run (tools/gen_masks.py) and proved equal to the model's constants (7 generated theorems, DESIGN §10.12).", "The shape of the comparisons (`& mask == value`) is tied by the correspondence, not by the translator."),
  "C09": ("Theorems C09_inf, C09_nan_none, C09_nan_payload: canonical IEEE patterns at the right width for every type, payload stored as an integer, widening / truthful rejection by "
          "C07_alloc; Spec-level decode_encodeInf/decode_encodeNan; formatting side by C02 (fmtNan_spec).", ""),
  "C10": ("Integer → decimal is the composition itoa text → FiniteParser → encoder; theorems: C01_encodeFinite for the digits of toDecimal v with exponent 0, and C10_back_core "
@@ -94,7 +94,7 @@ def main():
             "level_claimed": {"category": cat, "text": text + f" [{n} theorems audited per run]", "design_ref": "DESIGN.md §10.4, §5 " + i},
             "level_note": COMMON_NOTE + note,
             "technique": ("Lean 4 machine-checked proof about a hand-written model + per-run model/implementation correspondence check with the Lean specification as oracle"
-                          + ("; the published constants are translated from the source on every run and re-proved by kernel evaluation" if i in ("C18", "C09") else "; the literal big-endian index lists are translated from the source on every run and proved to be the reversal" if i == "C16" else "")
+                          + ("; the published constants are translated from the source on every run and re-proved by kernel evaluation" if i in ("C18", "C09") else "; the literal big-endian index lists are translated from the source on every run and proved to be the reversal" if i == "C16" else "; the combination-field masks are translated from the source on every run and proved equal to the model's" if i == "C08" else "; the literal width-selection tables are translated from the source on every run and proved to be the IEEE format parameters and the model's tables" if i == "C07" else "")
                           if i != "C05" else "Lean 4 machine-checked proof that a checked model with every Rust panic site explicit never panics + catch_unwind execution of every operation in 2 profiles x 3 feature sets"),
         })
     m = {
